@@ -1420,7 +1420,10 @@ func compileTableExpr(context *funcContext, reg int, ex *ast.TableExpr, ec *expc
 			reg = regorg
 		}
 		flush := arraycount % FieldsPerFlush
-		if (arraycount != 0 && (flush == 0 || islast)) || lastvararg {
+		// pending positional items are flushed when their batch is full (only a positional item can fill it),
+		// at the last field if any are pending, and together with a trailing multi-value expression
+		fullbatch := field.Key == nil && !lastvararg && flush == 0
+		if fullbatch || (islast && flush != 0) || lastvararg {
 			reg = regbase
 			num := flush
 			if num == 0 {
@@ -1428,19 +1431,23 @@ func compileTableExpr(context *funcContext, reg int, ex *ast.TableExpr, ec *expc
 			}
 			c := (arraycount-1)/FieldsPerFlush + 1
 			b := num
-			if islast && isVarArgReturnExpr(field.Value) {
+			if lastvararg {
+				// the open-ended values follow the pending items of the current batch
 				b = 0
+				c = arraycount/FieldsPerFlush + 1
 			}
 			line := field.Value
 			if field.Key != nil {
 				line = field.Key
 			}
+			extra := 0
 			if c > 511 {
+				extra = c
 				c = 0
 			}
 			code.AddABC(OP_SETLIST, tablereg, b, c, sline(line))
 			if c == 0 {
-				code.Add(uint32(c), sline(line))
+				code.Add(uint32(extra), sline(line))
 			}
 		}
 	}
